@@ -292,13 +292,30 @@ open Lean Elab Command in
 '''
 
 
+def import_closure(modules):
+    """Source files of the given modules and of all project-local modules they import."""
+    seen, todo = {}, list(modules)
+    while todo:
+        m = todo.pop()
+        if m in seen:
+            continue
+        f = LEAN / (m.replace('.', '/') + '.lean')
+        if not f.exists():
+            continue
+        seen[m] = f
+        for line in f.read_text().splitlines():
+            mm = re.match(r'\s*import\s+(\S+)', line)
+            if mm and mm.group(1).split('.')[0] in ('PypyrModel', 'Props', 'Generated', 'Driver'):
+                todo.append(mm.group(1))
+    return [seen[k] for k in sorted(seen)]
+
+
 def audit(modules):
     """Return (theorems, problems). theorems: list of {module, name, axioms}."""
     problems = []
-    # 1. forbidden tokens in the sources of these modules and of everything under
-    #    PypyrModel/ and Props/ (comments stripped)
-    for f in sorted(list((LEAN / 'Props').rglob('*.lean')) + list((LEAN / 'PypyrModel').rglob('*.lean'))
-                    + list((LEAN / 'Generated').rglob('*.lean'))):
+    # 1. forbidden tokens in the sources of these modules and of every project module they
+    #    import, transitively (comments stripped)
+    for f in import_closure(modules):
         txt = f.read_text()
         txt = re.sub(r'/-.*?-/', '', txt, flags=re.S)
         for i, line in enumerate(txt.splitlines(), 1):
@@ -419,8 +436,10 @@ def run_check(pid, module, tier, seed, replay=None):
                    ' pmdriver && lake env lean .audit/Audit_*.lean  # collectAxioms on every theorem')
     proof_problems = []
     theorems = []
-    # 1. extraction (optional per module)
+    # 1. extraction: regenerate lean/Generated/*.lean from the source under test
     try:
+        from . import extract as _extract
+        _extract.generate()
         if hasattr(module, 'extract'):
             module.extract(env)
     except Infra:
